@@ -43,6 +43,15 @@ def handle : Handler := fun cmd j =>
     | .ok text =>
       pure (Json.mkObj [("ok", ofChars text), ("bytes", ofChars (utf8 text)),
         ("eval", optAssigns (evalScript (utf8 text)))])
+  | "c31.handovers" => do
+    -- the texts of `n` hand-overs of ONE mapping object (heap model of `_generate_env_str`, with its defensive copy)
+    let ro ← getStrs j "ro"
+    let env ← parseEnv j "env"
+    let n ← getNat j "n"
+    pure (.arr ((handovers true (ro.map String.toList) n [env] 0).map fun
+      | .error .key => Json.mkObj [("err", "KeyError")]
+      | .error .attr => Json.mkObj [("err", "AttributeError")]
+      | .ok text => Json.mkObj [("ok", ofChars text)]).toArray)
   | "c31.bash" => do
     let s ← chars j "script"
     pure (optAssigns (evalScript s))
